@@ -33,6 +33,7 @@ CHECKS = {
             R("TestC17_BytesReuse", 8000, 300000),
             R("TestC17_HexHelpers", 20000, 1000000, shards=4),
             R("TestC17_Bint", 20000, 1000000, shards=4),
+            P("TestC17_EveryByte", shards=9),
             P("TestC17_KnownFindings"),
             F("FuzzC17Token", "60s"),
         ],
